@@ -42,7 +42,12 @@ def gen_case(rng):
     top = names[-1]
     meta = {"kind": "chain"}
     if kind < 0.3:
-        pass
+        if depth >= 2 and rng.random() < 0.25:
+            # a layer whose whole document is null (JSON `null`, YAML `~`): it changes nothing, and the layers above it still inherit
+            # from the layers below it
+            i = rng.randrange(1, depth - 1) if depth >= 3 and rng.random() < 0.8 else rng.randrange(0, depth)
+            contents[names[i]] = (rng.choice(["json", "yaml", "yml", "jsonl"]), [None])
+            meta["null_layer"] = i
     elif kind < 0.35:
         # wildcards in a DIRECTORY component of $parent (io/fs.Glob beneath the root): every matching directory is
         # listed, in order; a directory whose name adds a dot is skipped by the dot-count rule; a link to a directory counts
@@ -211,6 +216,8 @@ def directive_case(case):
     files = {f.rsplit(".", 1)[0]: f for f in case["layout"] if "link" not in case["layout"][f]}
     if not all(n in files for n in names):
         return None
+    if not isinstance(case["layout"][files[names[-1]]]["docs"][0], dict):
+        return None     # a null top layer has nowhere to put a $parent
     lay = {}
     newname = {n: "flat%d" % i for i, n in enumerate(names)}
     for n in names:
@@ -219,7 +226,11 @@ def directive_case(case):
         docs = [dict(d) if isinstance(d, dict) else d for d in node["docs"]]
         i = names.index(n)
         if i > 0 and isinstance(docs[0], dict):
-            docs[0]["$parent"] = newname[names[i - 1]]
+            # a null layer cannot carry a $parent (and changes nothing): the twin inherits from the layer below it
+            j = i - 1
+            while j > 0 and not isinstance(case["layout"][files[names[j]]]["docs"][0], dict):
+                j -= 1
+            docs[0]["$parent"] = newname[names[j]]
         lay[newname[n] + "." + node["fmt"]] = {"fmt": node["fmt"], "docs": docs}
     for f, node in case["layout"].items():
         if f.rsplit(".", 1)[0] not in names and "link" not in node:
